@@ -278,8 +278,13 @@ def run_check(modname, tier, seed, replay=None):
     agg = execute(modname, cases)
     agg['tier'] = tier
     agg['seed'] = seed
+    collapse = None
     if hasattr(mod, 'finish'):
-        mod.finish(agg, tier)
+        try:
+            mod.finish(agg, tier)
+        except HarnessError as e:
+            # a violation that aborts a case early may starve a vacuity guard: report the violation first
+            collapse = e
 
     known = load_known()
     by_sig = {}
@@ -338,6 +343,8 @@ def run_check(modname, tier, seed, replay=None):
         json.dump(ev, f, indent=1, sort_keys=True)
     for ln in lines:
         print(ln)
+    if collapse is not None and not new:
+        raise collapse
     print(f'{prop} tier={tier} cases={agg["cases"]} evaluations={agg["evals"]} '
           f'states={len(agg["states"])} transitions={agg["trans"]} nontrivial={agg["nontrivial"]} '
           f'outcomes={len(agg["outcomes"])} known={len(old)} new_violations={len(new)} '
